@@ -54,6 +54,14 @@ def mergeDecision (ff : FFMode) (head other base : Nat) : MergeOutcome :=
   | [x] => if ff == .never then .mergeCommit [head, other] else .fastForward x
   | _ => if ff == .only then .rejected else .realMerge
 
+/-- the mode handed to `runMerge` (`getFastForward`, shared by merge and pull): a mode given on the
+    command line (`--ff` = `default_`, `--no-ff`, `--ff-only`) is the one in force; `merge.fastForward`
+    of the configuration counts only when no flag is given -/
+def effectiveFF (flag config : Option FFMode) : FFMode :=
+  match flag with
+  | some m => m
+  | none => config.getD .default_
+
 end Wrgl
 
 namespace Wrgl
